@@ -246,3 +246,45 @@ Proof.
   destruct (ug && negb hg); [discriminate|]. intro H. inversion H. exists sel. split; [reflexivity|]. cbv zeta.
   split; [|reflexivity]. rewrite (proj1 (k_by_grp_model ug)). apply agg_keys.
 Qed.
+
+(** * scale covariance of the generated formulas: a trial whose true values and effects are multiplied by [c] has its records
+    multiplied by [c]; the error variance fixed by a heritability target is proportional to the genetic variance (so the
+    calibration does not depend on the scale of the trait) *)
+Lemma kernel_scale_covariance (c m e r x h v : Q) : ~ h == 0 ->
+  k_value (c * m) (c * e) (c * r) (c * x) == c * k_value m e r x /\
+  k_h2_err h (c * v) == c * k_h2_err h v /\ k_H2_err h (c * v) == c * k_H2_err h v.
+Proof. intro H. unfold k_value, k_h2_err, k_H2_err. repeat split; try ring; field; exact H. Qed.
+
+Lemma zip4_scale (c : Q) : forall v e r x,
+  qlist_eq (zip4 k_value (map (Qmult c) v) (map (Qmult c) e) (map (Qmult c) r) (map (Qmult c) x)) (map (Qmult c) (zip4 k_value v e r x)).
+Proof.
+  induction v as [|a v IH]; intros [|b e] [|d r] [|f x]; cbn; try constructor.
+  - unfold k_value. ring.
+  - apply IH.
+Qed.
+
+Lemma scale_scale (c : Q) : forall sd z, qlist_eq (scale (map (Qmult c) sd) z) (map (Qmult c) (scale sd z)).
+Proof.
+  unfold scale. intros sd z. revert sd. induction z as [|a z IH]; intros [|s sd]; cbn; try constructor.
+  - ring.
+  - apply IH.
+Qed.
+
+Lemma zip4_compat : forall a a', qlist_eq a a' -> forall b b', qlist_eq b b' -> forall c c', qlist_eq c c' -> forall d d', qlist_eq d d' ->
+  qlist_eq (zip4 k_value a b c d) (zip4 k_value a' b' c' d').
+Proof.
+  induction 1 as [|x x' a a' Hx Ha IH]; intros b b' Hb c c' Hc d d' Hd; [cbn; constructor|].
+  destruct Hb as [|y y' b b' Hy Hb]; [cbn; constructor|]. destruct Hc as [|z z' c c' Hz Hc]; [cbn; constructor|].
+  destruct Hd as [|w w' d d' Hw Hd]; [cbn; constructor|]. cbn. constructor.
+  - unfold k_value. apply Qplus_comp; [apply Qplus_comp; [apply Qplus_comp|]|]; assumption.
+  - apply IH; assumption.
+Qed.
+
+(** the value vector of a record when true value and the three standard-deviation vectors are multiplied by [c] (same draws) *)
+Lemma record_scale (c : Q) (v sde sdr sdx ze zr zx : list Q) :
+  qlist_eq (add_effects (map (Qmult c) v) (scale (map (Qmult c) sde) ze) (scale (map (Qmult c) sdr) zr) (scale (map (Qmult c) sdx) zx))
+           (map (Qmult c) (add_effects v (scale sde ze) (scale sdr zr) (scale sdx zx))).
+Proof.
+  rewrite !add_effects_kernel. eapply qlist_eq_trans; [|apply zip4_scale].
+  apply zip4_compat; [apply qlist_eq_refl | apply scale_scale | apply scale_scale | apply scale_scale].
+Qed.
